@@ -266,6 +266,10 @@ pub fn check(ctx: &mut Ctx) {
             ("to behind a quoted attribute", "A<tl c='to' @>X</tl>B", "AB"),
             ("in a pending parent", "a<rm name='zz'>b<tl @>X</tl>c</rm>d", "a<rmname='zz'>bc</rm>d"),
             ("in an unregistered parent", "a<div>b<tl @>X</tl>c</div>d", "a<div>bc</div>d"),
+            // an expired child inside an expired unwrap-block parent that cannot be unwrapped (one line between its tags): the
+            // parent stays, the child goes
+            ("child of an un-unwrappable unwrap-block", "a\n<tl @ unwrap-block>\n<tl @>X</tl>\n</tl>\nb\n", "a<tl@unwrap-block></tl>b"),
+            ("child of an inline unwrap-block", "a <tl @ unwrap-block>p <tl @>X</tl> q</tl> b", "a<tl@unwrap-block>pq</tl>b"),
         ];
         let mut cases: Vec<(String, String, String, TimeCase)> = vec![];
         for now in [epoch(2024, 2, 29, 0, 0, 0), epoch(2038, 1, 19, 3, 14, 7)] {
@@ -273,7 +277,7 @@ pub fn check(ctx: &mut Ctx) {
                 for (ofs, colon) in [(0i64, true), (9 * 3600, false), (-8 * 3600, true), (5 * 3600 + 45 * 60, true)] {
                     let c = grid_case(now, d, ofs, colon);
                     for (name, tmpl, gone) in &shapes {
-                        cases.push((name.to_string(), tmpl.replace('@', &c.to_attr), gone.to_string(), c.clone()));
+                        cases.push((name.to_string(), tmpl.replace('@', &c.to_attr), nows(&gone.replace('@', &c.to_attr)), c.clone()));
                     }
                 }
             }
